@@ -11,9 +11,11 @@ TEXT = {
 def _sse(run):
     from checks import asmsse
     asmsse.ob(run, 'C03')
+    from checks import asmrel
+    asmrel.ob(run, 'C03')        # relative branches
 
 if __name__ == '__main__':
     sys.exit(asmfam.run_family('C03', sys.argv[1:], 'other', RULE + '; ' + TEXT['C03'][0], TEXT['C03'][1],
                                ['specs/x86dec.py (reference disassembler)', 'bounded/asmgen.py printers (audited against GNU as: 16475 of 16878 generated lines assemble to an encoding of the intended instruction)'] + (['/usr/bin/as (GNU assembler, executed)'] if 'C03' in ('C03', 'C09') else []),
-                               ['MMX/SSE instructions are checked on 5 operand forms per table row and mandatory prefix with GNU objdump / GNU as as the reference (checks/asmsse.py); relative branches and far pointers are outside the generator', 'lines the assembler rejects with ValueError are not constrained'],
+                               ['MMX/SSE instructions are checked on 5 operand forms per table row and mandatory prefix with GNU objdump / GNU as as the reference (checks/asmsse.py); relative branches with a numeric displacement are checked separately against the spec decoder (checks/asmrel.py: all spellings of jmp/call/jcc/loop*/jecxz x 24 boundary displacements); far pointers are outside the generator', 'lines the assembler rejects with ValueError are not constrained'],
                                extra=_sse))
